@@ -466,9 +466,7 @@ func streamCloseRun(p streamClosePlan) (*common.Fail, string) {
 	t0 := time.Now()
 	go func() { tun.Close(); close(closed) }()
 	var fail *common.Fail
-	select {
-	case <-closed:
-	case <-time.After(3 * time.Second):
+	if !common.WaitLive(closed, 3*time.Second) {
 		mu.Lock()
 		n := next
 		stopped = true
